@@ -28,6 +28,10 @@ func main() {
 	switch cmd {
 	case "core-replay":
 		coreReplay(args)
+	case "robust-templates":
+		robustTemplatesCmd(args)
+	case "robust-replay":
+		robustReplay(args)
 	case "cmd-run":
 		cmdRun(args)
 	case "conv-run":
